@@ -1094,9 +1094,16 @@ func (g *vGen) opening() string {
 		for round := 2 + r.intn(2); round > 0; round-- {
 			g.opDisconnect(g.sess[a].conn)
 			for k := 1 + r.intn(3); k > 0; k-- {
-				if r.chance(1, 3) {
+				switch r.intn(4) {
+				case 0:
 					g.emit("api %d %s message %s", b, vEnc(room), vEnc(g.someData()))
-				} else {
+				case 1:
+					// chat-refresh notices: repeated ones may be merged while the session is away
+					g.emit("api %d %s message %s", b, vEnc(room), vEnc("chat-refresh"))
+					if r.chance(1, 2) {
+						g.emit("msg s%d m s s%d %s", o, a, vEnc("chat-refresh"))
+					}
+				default:
 					g.opMsgTo(o, a)
 				}
 			}
